@@ -256,6 +256,51 @@ def summarize(recs):
     return out
 
 
+# ---------------------------------------------------------------- threading models of a history
+
+def thread_counts():
+    """admissible worker counts: powers of two AND counts that do not divide a power-of-two buffer"""
+    import os
+    cores = os.cpu_count() or 4
+    return [k for k in (2, 3, 5, 6, 7) if k <= cores] or [1]
+
+
+def thread_mix(rng, hs, frac=0.35):
+    """a fraction of the histories runs under num_threads(k) (k drawn from thread_counts()); the model has no
+    threading model, so the comparison is unchanged -- "any threading model" of the statements"""
+    ks = thread_counts()
+    out = []
+    for s, acts in hs:
+        acts = list(acts)
+        if acts and acts[0][0] in ("new", "with", "raw") and not any(a[0] == "threads" for a in acts) and rng.random() < frac:
+            acts = [acts[0], ("threads", rng.choice(ks))] + acts[1:]
+        out.append((s, acts))
+    return out
+
+
+def threaded_core(rng, tier, sample=True):
+    """systematic threaded histories: every worker count x registers of 4-6 qubits (buffers longer than one
+    block of 8) with weight on the highest basis states: norm, probabilities, a measurement that includes a
+    high qubit, the same measurement again, and a histogram with only a few shots per outcome"""
+    import gen
+    hs = []
+    for k in thread_counts():
+        for n in ((4, 5, 6) if tier != "quick" else (4, 5, 6)[: 3]):
+            for rep in range(1 if tier == "quick" else 6):
+                full = (1 << n) - 1
+                st = gen.random_state(rng, n)
+                hi = 1 << (n - 1)
+                m = hi | rng.randrange(1 << n)
+                acts = [("raw", n, st), ("threads", k), ("dump",), ("abs",), ("probs",),
+                        ("measure", m), ("dump",), ("abs",), ("probs",), ("measure", m), ("dump",),
+                        ("apply", ("h", full)), ("dump",), ("abs",), ("measure", hi), ("dump",), ("abs",), ("probs",)]
+                if sample:
+                    acts += [("apply", ("h", full)), ("sample", rng.choice([1 << n, 3 << n, (1 << n) // 2 + 1])),
+                             ("sample", rng.choice([0, 1, 7]))]
+                hs.append((rng.randrange(1 << 30), acts))
+    return hs
+
+
 # ---------------------------------------------------------------- oracles shared by the register properties
 
 def norm2(v):
@@ -280,6 +325,9 @@ def oracle_valid_state(acts, recs, tol=1e-7):
             p = r[1]
             if any((not math.isfinite(x)) or x < 0 for x in p) or abs(sum(p) - 1) > 1e-9:
                 fails.append("probabilities %r" % p[:8])
+        elif r[0] == "b":
+            if not math.isfinite(r[1]) or abs(r[1] - 1) > 1e-7:
+                fails.append("reported norm (get_absolute) %r" % r[1])
         elif r[0] == "x":
             fails.append("panic: %s %s" % (r[1], r[2][:120] if len(r) > 2 else ""))
         elif r[0] == "died":
